@@ -187,7 +187,10 @@ def gen_pm(rng, nq, kind):
     return generate_preset_pass_manager(optimization_level=lvl, coupling_map=CouplingMap.from_line(m), initial_layout=layout, seed_transpiler=rng.randrange(1000))
 
 
-STACKS = ["plain", "mutex", "batching", "T:level0", "T:layout", "T:routing", "T:routing+batching", "T:layout+mutex", "T:level0+batching"]
+# "outer>inner": the wrappers of `inner` are applied first, those of `outer` around them — the batching / mutex wrapper in FRONT of the transpiling
+# wrapper, and the stack a second solver builds when a configuration object is used again (finding F16)
+STACKS = ["plain", "mutex", "batching", "T:level0", "T:layout", "T:routing", "T:routing+batching", "T:layout+mutex", "T:level0+batching",
+          "batching>T:level0", "mutex>T:layout", "T:level0+batching>T:level0+batching"]
 
 
 def build_stack(rng, nq, stack, prim, is_sampler):
@@ -195,6 +198,9 @@ def build_stack(rng, nq, stack, prim, is_sampler):
     from queasars.circuit_evaluation.transpiling_primitives import TranspilingEstimatorV2, TranspilingSamplerV2
 
     p = prim
+    if ">" in stack:
+        outer, inner = stack.split(">", 1)
+        return build_stack(rng, nq, outer, build_stack(rng, nq, inner, prim, is_sampler), is_sampler)
     if "batching" in stack:
         p = (BatchingMutexSampler if is_sampler else BatchingMutexEstimator)(p, waiting_duration=0.02)
     if "mutex" in stack:
@@ -541,7 +547,7 @@ def one_case(ctx, rng, kind, stack, classical, tag, second_round=None):
         ctx.compare("pipeline.evaluate (pubs reaching the primitive)", inp, seen, r.get("pubs"))
     if "batching" in stack and not stack.startswith("T:"):
         pass  # slices are compared below through result metadata for every batching stack
-    if kind == "estimator" and classical and stack.startswith("T:"):
+    if kind == "estimator" and classical and stack.startswith("T:") and ">" not in stack:
         # (c) the observable submitted with each transpiled circuit, the value, the physical placement
         flat = [(qc, p) for cs, ps in callers for qc, p in zip(cs, ps)]
         for batch in first_batches:
